@@ -756,12 +756,12 @@ struct TemplateCore {
                         ++offset;
                     }
 
-                    // Level is 8 bits wide: a loop under more than 255 open tags would share the slot of an outer loop.
-                    if ((offset < end_offset) && (parent_storage.Size() <= SizeT{0xFF})) {
+                    // Level is the number of enclosing loops; it is 8 bits wide: a loop inside 255 others stays literal text.
+                    if ((offset < end_offset) && ((loop_tag == nullptr) || (loop_tag->Level < SizeT8{0xFF}))) {
                         LoopTag *tag = (storage->Insert(TagBit{})).MakeLoopTag();
                         tag->Offset  = loop_offset;
                         tag->Parent  = loop_tag;
-                        tag->Level   = SizeT8(parent_storage.Size());
+                        tag->Level   = ((loop_tag != nullptr) ? SizeT8(loop_tag->Level + SizeT8{1}) : SizeT8{0});
                         loop_tag     = tag;
 
                         parseLoopAttributes(content, offset, *tag);
@@ -1363,7 +1363,7 @@ struct TemplateCore {
             const SizeT   loop_size      = loop_set->Size();
             SizeT         loop_index     = 0;
 
-            // Level also counts the enclosing <if> tags: make sure the slot exists.
+            // Make sure the slot of this nesting level exists.
             while (loops_items_->Size() <= tag.Level) {
                 *loops_items_ += LoopItem{};
             }
